@@ -8,7 +8,6 @@ use rand::Rng;
 use refchess::gen;
 use refchess::*;
 
-use crate::c09::fresh_depth1;
 use crate::common::*;
 use crate::session::*;
 
@@ -58,7 +57,16 @@ pub fn session(rng: &mut StdRng, starts: &mut gen::Starts, rep: &mut Report) {
     rep.count(&format!("legal_moves_before_the_rejected_one_{}", tms.len()));
     rep.distinct_hash(monlib::mix(held.key().h64(), monlib::fnv(format!("{:?}", list).as_bytes())));
     // the engine must still hold `held`
-    let fresh = match fresh_depth1(&held) { Some(f) => f, None => { rep.inconclusive("fresh engine did not answer"); return; } };
+    // reference: a fresh engine given exactly the accepted command (same history — the repetition
+    // rule makes the depth-1 score depend on it)
+    let fresh = {
+        let mut f = InProc::new();
+        f.record_infos = false;
+        match search(&mut f, Some((&fen, &l)), &GoSpec::depth(1)) {
+            Ok(o) => crate::c09::Fresh { score: o.score_at_depth(1).and_then(reported) },
+            Err(_) => { rep.inconclusive("fresh engine did not answer"); return; }
+        }
+    };
     match search(&mut sess, None, &GoSpec::depth(1)) {
         Ok(o) => {
             let legal: Vec<String> = held.legal_moves().iter().map(|m| m.uci()).collect();
